@@ -38,7 +38,7 @@ def abstract_cfg(rng, vmin=1, vmax=6, tmax=3, feats=None):
     return {'kind': 'cfg', 'V': V, 'Sigma': Sigma, 'R': R, 'S': V[0], 'eps': 'ε'}
 
 
-def pad_variables(rng, g, total):
+def pad_variables(rng, g, total, long_rule=True):
     """Add variables (each with a trivial terminal rule, some referenced) so that |V| reaches `total`."""
     g = {**g, 'V': list(g['V']), 'R': [list(r) for r in g['R']], 'Sigma': list(g['Sigma'])}
     i = len(g['V'])
@@ -51,6 +51,10 @@ def pad_variables(rng, g, total):
         g['R'].append([v, [[rng.choice(g['Sigma']), 'T']]])
         if rng.random() < 0.15:
             g['R'].append([g['S'], [[v, 'V'], [v, 'V'], [rng.choice(g['Sigma']), 'T']]])
+    if long_rule:
+        # the fresh variables of one long rule are drawn as a batch: make sure a batch can straddle the 26 boundary
+        L = rng.randint(4, 6)
+        g['R'].append([rng.choice(g['V']), [([rng.choice(g['V']), 'V'] if rng.random() < 0.5 else [rng.choice(g['Sigma']), 'T']) for _ in range(L)]])
     return g
 
 
@@ -83,7 +87,7 @@ def rename(g, rng, multi_p=0.0, shuffle_sets=True, upper_only=True):
     new_v = names.fresh_variables(rng, len(g['V']), multi_p=multi_p)
     vm = dict(zip(g['V'], new_v))
     ts = sorted(set(g['Sigma']) | {s[0] for _, rhs in g['R'] for s in rhs if s[1] == 'T'})
-    new_t = rng.sample(names.LOWER, len(ts))
+    new_t = rng.sample(names.LOWER, len(ts)) if (upper_only or rng.random() >= 0.15) else rng.sample('0123456789', len(ts))   # digit terminals: legal through the constructors only
     tm = dict(zip(ts, new_t))
     out = dict(g)
     out['V'] = [vm[v] for v in g['V']]
